@@ -125,6 +125,10 @@ func Field(base *Term, name string) *Term {
 		}
 		return Const("zero")
 	}
+	if base.Op == "deref" && len(base.Args) == 1 && base.Args[0].Op == "struct" {
+		// a captured / pointed-to struct literal that is only read
+		return Field(base.Args[0], name)
+	}
 	if base.Op == "ite" && len(base.Args) == 3 {
 		// a field of a conditional value (a result struct picked by a chain of tests) is the conditional of the fields
 		x, y := Field(base.Args[1], name), Field(base.Args[2], name)
@@ -240,6 +244,9 @@ func (t *Term) Subst(m map[string]*Term) *Term {
 	return rebuild(t, na)
 }
 
+// dynResolver turns calldyn(<known function value>, args...) into the call it is (set by NewAnalyzer).
+var dynResolver func(args []*Term) *Term
+
 // rebuild re-applies the simplifying constructors after substitution.
 func rebuild(t *Term, na []*Term) *Term {
 	switch t.Op {
@@ -265,6 +272,13 @@ func rebuild(t *Term, na []*Term) *Term {
 		// reading a captured variable that has a single assignment
 		if len(na) == 1 && na[0].Op == "cell" && len(na[0].Args) == 1 {
 			return na[0].Args[0]
+		}
+	case "calldyn":
+		// the called value became known by the substitution (a function value passed as an argument)
+		if dynResolver != nil && len(na) > 0 && (na[0].Op == "closure" || na[0].Op == "func") {
+			if r := dynResolver(na); r != nil {
+				return r
+			}
 		}
 	case "ite":
 		if na[0].Key() == tTrue.Key() {
